@@ -11,6 +11,7 @@ import numpy as np
 import torch
 
 D = torch.float64
+_DEBUG = bool(__import__('os').environ.get('VF_DEBUG'))
 
 
 def haar(n, gen):
@@ -98,25 +99,30 @@ def ref_orth_iter(A, Q0, k):
 
 def cluster_cmp(out, Qr, ev, u, n, normA, C=256.0, probe=None):
     """Compare column-cluster projectors of `out` with the reference `Qr` (Rayleigh quotients `ev`, ascending).
-    A cluster is comparable iff its gap-aware tolerance is <= 0.1 and (when `probe`, the reference iteration started
-    from a rounding-level perturbation of the estimate, is given) the reference itself is insensitive to such a
-    perturbation there.  Returns (ok, n_nonvacuous_clusters, worst_ratio)."""
+    Clusters are maximal runs of Rayleigh quotients separated by more than a rounding-level gap; a cluster is
+    comparable iff its gap-aware tolerance is <= 0.1.  When `probe` (the reference iteration re-run with emulated
+    working-precision rounding noise) is given and ANY cluster of the reference moves under that noise, the column
+    order itself is not reproducible and nothing is compared (vacuous).
+    Returns (ok, n_nonvacuous_clusters, worst_ratio)."""
     if normA <= 0:
         return True, 0, 0.0
     delta = max(1e3 * n * u, 1e-9) * normA
     cuts = [0] + [i + 1 for i in range(n - 1) if float(ev[i + 1] - ev[i]) > delta] + [n]
-    ok, nonvac, worst = True, 0, 0.0
+    clusters = []
     for a, b in zip(cuts[:-1], cuts[1:]):
         gap = min(float(ev[a] - ev[a - 1]) if a > 0 else float("inf"), float(ev[b] - ev[b - 1]) if b < n else float("inf"))
         tol = C * n * u * normA / gap if gap < float("inf") else C * n * u
         tol = max(tol, C * n * u)
-        if tol > 0.1:
-            continue
         Pb = Qr[:, a:b] @ Qr[:, a:b].T
         if probe is not None:
             Pp = probe[:, a:b] @ probe[:, a:b].T
-            if float((Pp - Pb).norm()) > tol / 8:
-                continue  # ill-conditioned: rounding noise alone moves this cluster
+            if float((Pp - Pb).norm()) > min(tol, 0.1) / 8:
+                return True, 0, 0.0  # ill-conditioned: rounding noise alone moves the decomposition
+        clusters.append((a, b, tol, Pb))
+    ok, nonvac, worst = True, 0, 0.0
+    for a, b, tol, Pb in clusters:
+        if tol > 0.1:
+            continue
         nonvac += 1
         Pa = out[:, a:b] @ out[:, a:b].T
         r = float((Pa - Pb).norm()) / tol
@@ -145,7 +151,10 @@ def match_orth_iter(out, A64, Q0_64, max_iter, u, C=256.0, gen=None):
         o = ev.argsort()
         probe = None
         if Qp is not None:
-            Qp = torch.linalg.qr(A64 @ Qp).Q
+            # emulate working-precision arithmetic: rounding noise of the product fl(A@Q), elementwise ~ u*(|A||Q|)
+            Mp = A64 @ Qp
+            Mp = Mp + 8 * u * (A64.abs() @ Qp.abs()) * torch.randn(n, n, generator=gen, dtype=D)
+            Qp = torch.linalg.qr(Mp).Q
             evp = torch.einsum("ij,ik,kj->j", Qp, A64, Qp)
             probe = Qp[:, evp.argsort()]
         ok, nv, worst = cluster_cmp(out, Q[:, o], ev[o], u, n, normA, C, probe)
